@@ -49,6 +49,9 @@ def generate(rng, tier):
         rnd["dry_run"] = bool(rng.chance(0.3))
         rnd["reset_after"] = bool(rng.chance(0.2))
         rnd["summaries"] = rng.randint(0, 2)
+    tally_ok = (case["world"]["audit_type"] != W.POLLING and
+                all(c["choice_function"] in (W.PLURALITY, W.APPROVAL) for c in case["world"]["contests"].values()))
+    case["margins_via_tally"] = bool(tally_ok and rng.chance(0.5))
     case["misconfig"] = [{"kind": rng.pick(MISCONFIG), "contest": rng.pick(sorted(case["world"]["contests"]))}
                          for _ in range(rng.randint(0, 3))]
     return case
